@@ -176,8 +176,13 @@ func c18(e *Env) {
 				if strings.Contains(k, "subStreamIPs[") {
 					found = true
 					okL := false
-					if la, ok := e.loopOver(sp.g, u.n, "subStreamIPs"); ok {
-						okL = e.loopHarmlessExits(sp.g, la)
+					for _, la := range iterLoops(sp.g, u.n) {
+						// the loop over the members: its collection (looked at through small helpers) is a slice taken
+						// out of the sub-stream map
+						if c := e.loopCollectionSymX(sp.g, la); c != nil && isSubStreamSlice(c) {
+							okL = e.loopHarmlessExits(sp.g, la)
+							break
+						}
 					}
 					ob3b.Check(okL, sp.g.Where(u.n), "Upstream["+trunc(k, 80)+"] for every member", "the loop over the members can be left early or is missing")
 				}
